@@ -126,49 +126,36 @@ Definition exec_levelizers : levelizers :=
 
 Section Gen.
 Variable L : levelizers.
+(* one levelized cost: capital share [cap], O&M share [om], other annual costs as an FCR scalar [xs] and as the series the
+   standard / BICYCLE branches add to O&M ([annual_std], [annual_bic] already include [om]), the FCR denominator
+   [avg_energy], the energy series and the unit factor *)
+Definition lev (c : lc_in) (cap om xs : Q) (annual_std annual_bic : list Q) (avg_energy : Q) (energy : list Q)
+               (unit : Q) : Q :=
+  if Z.eqb (l_econ c) 1 then fcr_num c cap om xs / avg_energy * unit
+  else if Z.eqb (l_econ c) 2 then L_std_num L c cap annual_std / L_std_den L c energy * unit
+  else L_bic_num L c cap annual_bic / L_bic_den L c energy * unit.
+
 (* (LCOE, LCOH, LCOC) *)
 Definition lcoe_gen (c : lc_in) : Q * Q * Q :=
-  let k := classify (l_enduse c) (l_plant c) in
+  let cap := l_ccap c in let om := l_coam c in
   let cap_e := l_ccap c * l_ratio c in let om_e := l_coam c * l_ratio c in
   let cap_h := l_ccap c * (1 - l_ratio c) in let om_h := l_coam c * (1 - l_ratio c) in
   let pumpc := cost_series c (l_pump c) in
   let hpc := cost_series c (l_hp c) in
-  if Z.eqb (l_econ c) 1 then
-    match k with
-    | LElec => (fcr_num c (l_ccap c) (l_coam c) 0 / avg (l_net c) * e8, 0, 0)
-    | LHeat => (0, fcr_num c (l_ccap c) (l_coam c) (l_avg_pump c) / avg (l_heat c) * e8 * mmbtu, 0)
-    | LCogen => (fcr_num c cap_e om_e 0 / avg (l_net c) * e8,
-                 fcr_num c cap_h om_h (l_avg_pump c) / avg (l_heat c) * e8 * mmbtu, 0)
-    | LChiller => (0, 0, fcr_num c (l_ccap c) (l_coam c) (l_avg_pump c) / avg (l_cool c) * e8 * mmbtu)
-    | LHeatPump => (0, fcr_num c (l_ccap c) (l_coam c) (l_avg_pump c + l_avg_hp c) / avg (l_heat c) * e8 * mmbtu, 0)
-    | LDistrict => (0, fcr_num c (l_ccap c) (l_coam c) (l_avg_pump c + l_avg_ng c) / l_demand c * e2 * mmbtu, 0)
-    | LNone => (0, 0, 0)
-    end
-  else if Z.eqb (l_econ c) 2 then
-    match k with
-    | LElec => (L_std_num L c (l_ccap c) (const_series c (l_coam c)) / L_std_den L c (l_net c) * e8, 0, 0)
-    | LHeat => (0, L_std_num L c (l_ccap c) (sadd (l_coam c) pumpc) / L_std_den L c (l_heat c) * e8 * mmbtu, 0)
-    | LCogen => (L_std_num L c cap_e (const_series c om_e) / L_std_den L c (l_net c) * e8,
-                 L_std_num L c cap_h (sadd om_h pumpc) / L_std_den L c (l_heat c) * e8 * mmbtu, 0)
-    | LChiller => (0, 0, L_std_num L c (l_ccap c) (sadd (l_coam c) pumpc) / L_std_den L c (l_cool c) * e8 * mmbtu)
-    | LHeatPump => (0, L_std_num L c (l_ccap c) (vadd (sadd (l_coam c) pumpc) hpc) / L_std_den L c (l_heat c) * e8 * mmbtu, 0)
-    | LDistrict => (0, L_std_num L c (l_ccap c) (vadd (sadd (l_coam c) pumpc) (l_ng c))
-                       / L_std_den L c (const_series c (l_demand c)) * e2 * mmbtu, 0)
-    | LNone => (0, 0, 0)
-    end
-  else
-    match k with
-    | LElec => (L_bic_num L c (l_ccap c) (const_series c (l_coam c)) / L_bic_den L c (l_net c) * e8, 0, 0)
-    | LHeat => (0, L_bic_num L c (l_ccap c) (sadd (l_coam c) pumpc) / L_bic_den L c (l_heat c) * e8 * mmbtu, 0)
-    | LCogen => (L_bic_num L c cap_e (const_series c om_e) / L_bic_den L c (l_net c) * e8,
-                 L_bic_num L c cap_h (const_series c om_h) / L_bic_den L c (l_heat c) * e8 * mmbtu, 0)
-    | LChiller => (0, 0, L_bic_num L c (l_ccap c) (sadd (l_coam c) pumpc) / L_bic_den L c (l_cool c) * e8 * mmbtu)
-    | LHeatPump => (0, L_bic_num L c (l_ccap c) (vadd (sadd (l_coam c) pumpc) hpc) / L_bic_den L c (l_heat c) * e8 * mmbtu, 0)
-    | LDistrict => (0, L_bic_num L c (l_ccap c) (vadd (sadd (l_coam c) pumpc) (l_ng c))
-                       / L_bic_den L c (const_series c (l_demand c)) * e2 * mmbtu, 0)
-    | LNone => (0, 0, 0)
-    end.
-
+  let k1 := const_series c in
+  match classify (l_enduse c) (l_plant c) with
+  | LElec => (lev c cap om 0 (k1 om) (k1 om) (avg (l_net c)) (l_net c) e8, 0, 0)
+  | LHeat => (0, lev c cap om (l_avg_pump c) (sadd om pumpc) (sadd om pumpc) (avg (l_heat c)) (l_heat c) (e8 * mmbtu), 0)
+  | LCogen => (lev c cap_e om_e 0 (k1 om_e) (k1 om_e) (avg (l_net c)) (l_net c) e8,
+               (* pumping cost is charged to cogeneration heat in the FCR and standard models, not in BICYCLE *)
+               lev c cap_h om_h (l_avg_pump c) (sadd om_h pumpc) (k1 om_h) (avg (l_heat c)) (l_heat c) (e8 * mmbtu), 0)
+  | LChiller => (0, 0, lev c cap om (l_avg_pump c) (sadd om pumpc) (sadd om pumpc) (avg (l_cool c)) (l_cool c) (e8 * mmbtu))
+  | LHeatPump => (0, lev c cap om (l_avg_pump c + l_avg_hp c) (vadd (sadd om pumpc) hpc) (vadd (sadd om pumpc) hpc)
+                         (avg (l_heat c)) (l_heat c) (e8 * mmbtu), 0)
+  | LDistrict => (0, lev c cap om (l_avg_pump c + l_avg_ng c) (vadd (sadd om pumpc) (l_ng c)) (vadd (sadd om pumpc) (l_ng c))
+                         (l_demand c) (k1 (l_demand c)) (e2 * mmbtu), 0)
+  | LNone => (0, 0, 0)
+  end.
 End Gen.
 
 Definition lcoe_code (c : lc_in) : Q * Q * Q := lcoe_gen vec_levelizers c.   (* what the code computes *)
